@@ -257,6 +257,27 @@ func execC12(spec *RunSpec) *Result {
 	if spec.Grid != nil && len(spec.Grid.Forms) > 0 {
 		forms = spec.Grid.Forms
 	}
+	// Work per run is bounded in kernel steps (deterministic, unlike wall-clock time): a render of a 200-level
+	// nesting costs half a million steps, and two renders per (offset, form) add up. About 4e8 steps per run
+	// (some ten seconds) are spent on the writer grid; expensive documents get fewer offsets - the first and last
+	// eight always, an even sample in between.
+	if refSteps := rep.Steps; refSteps > 0 && (spec.Grid == nil || len(spec.Grid.Offsets) == 0) {
+		maxOff := int(400_000_000 / (refSteps * int64(len(forms)) * 2))
+		if maxOff < 24 {
+			maxOff = 24
+		}
+		if len(offsets) > maxOff {
+			keep := append([]int{}, offsets[:8]...)
+			step := (len(offsets) - 16) / (maxOff - 16)
+			if step < 1 {
+				step = 1
+			}
+			for i := 8; i < len(offsets)-8; i += step {
+				keep = append(keep, offsets[i])
+			}
+			offsets = append(keep, offsets[len(offsets)-8:]...)
+		}
+	}
 	onlyPolls := spec.Grid != nil && len(spec.Grid.Polls) > 0
 	if spec.Grid != nil && len(spec.Grid.ReaderAt) > 0 {
 		offsets = nil
